@@ -42,9 +42,12 @@ LEVEL_TEXT = (
     "(C02_python_wins_partial = none repaired). C02_user_name_shield (a user-bound bare name is never read from builtins), "
     "C02_store_same_stmt, C02_del_returns (after `del x` of a name recorded once, through ANY statements that do not record x, a line "
     "reading x is offered again), C02_scope_pop (+_class, _offers: what only a def / class body records is gone after it, at any depth). "
+    "C02_raise_wrapper_pure: phase 3 (_SubprocChainRaiseWrapper, hand model) returns every tree without a subprocess helper below it "
+    "unchanged - a pure-Python and/or is never wrapped in subproc_check_boolop, whatever commands stand elsewhere in the input. "
     "C02_parse_before_exec: on every path of Execer.exec / eval (skeleton regenerated from the source every run) builtin exec / "
     "eval is applied only to code compiled from the whole input. Tie: generated programs through the real Execer.compile/parse "
-    "(decision per statement, 0 disagreements with the model), the real Execer.exec against builtin exec (operation log, namespace, "
+    "(decision per statement, 0 disagreements with the model; every statement whose reads are all bound must be, location-free, the very "
+    "tree ast.parse builds), the real Execer.exec against builtin exec - also after a command that failed without raising (operation log, namespace, "
     "output), and malformed inputs (nothing runs)."
 )
 LEVEL_NOTE = (
@@ -1752,8 +1755,11 @@ def stream_decisions(ctx, n, name="decisions"):
         "Execer.compile (ctx = dir(builtins) | session names, as the shell does) and the tree its Execer.parse returned inspected per "
         "statement: converted to a __xonsh__.subproc_* call / rewritten to builtin_cmd. Compared with the Lean transformer model "
         "(converted => model offers; model offers an expression statement that is valid command text => converted; builtin_cmd <=> "
-        "model) and with the Lean spec (all reads bound => not converted; reads a deleted, now unbound name and is command text => "
-        "converted; user-bound bare name => not builtin_cmd); non-trivial = some statement is offered or converted",
+        "model) and with the Lean spec (all reads bound => not converted AND its own parts are, location-free, exactly the tree "
+        "ast.parse builds; reads a deleted, now unbound name and is command text => converted; user-bound bare name => not "
+        "builtin_cmd). Walrus at every position PEP 572 allows (comprehension element / condition, lambda body, operands), every "
+        "combination of parameter kinds (positional-only, defaults, *args, keyword-only, **kwargs) with body lines reading each "
+        "parameter, pure-Python and/or statements next to command lines in both orders; non-trivial = some statement is offered or converted",
     )
     g = Gen(ctx.rng)
     for _ in range(n):
@@ -1799,7 +1805,9 @@ def stream_exec(ctx, n, name="exec-vs-python"):
         "support and LOG every operation; real imports; defined functions are called), executed by the REAL Execer.exec (every "
         "__xonsh__.subproc_* helper replaced by a recorder: nothing may be spawned) and by builtin exec of the same source: operation "
         "log, stdout, final namespace and escaping exception must be identical; single-statement inputs are also run in `single` mode "
-        "(what the prompt uses) with the displayed value compared; non-trivial = the run logged at least 3 operations",
+        "(what the prompt uses) with the displayed value compared; a third of the programs is run again after a REAL command that failed "
+        "without raising (`!(xvfail)`, rtn 1, $XONSH_SUBPROC_RAISE_ERROR on): the Python statements must still behave as under builtin exec; "
+        "non-trivial = the run logged at least 3 operations",
     )
     batch = _runnable_batch(ctx, n)
     # where the session's names live: one namespace (the shell), or some in a separate locals mapping (ExecAlias, macros, execx(locs=…))
